@@ -86,6 +86,18 @@ impl Database {
             names.reset();
         }
         zones.reset();
+        #[cfg(jiff_verif)]
+        crate::__verif::emit("reset", "", 0, 0);
+    }
+
+    /// Sets the time-to-live of cached zones and of the cached name listing.
+    #[cfg(jiff_verif)]
+    pub(crate) fn __verif_set_ttl(&self, ttl: Duration) {
+        let mut zones = self.zones.write().unwrap();
+        zones.ttl = ttl;
+        if let Some(ref names) = self.names {
+            names.inner.write().unwrap().ttl = ttl;
+        }
     }
 
     pub(crate) fn get(&self, query: &str) -> Option<TimeZone> {
@@ -103,6 +115,14 @@ impl Database {
         // time zone.
         {
             let zones = self.zones.read().unwrap();
+            #[cfg(jiff_verif)]
+            {
+                let (cached, fresh) = match zones.get(query) {
+                    None => (0, 0),
+                    Some(czone) => (1, if czone.is_expired() { 0 } else { 1 }),
+                };
+                crate::__verif::emit("fast", query, cached, fresh);
+            }
             if let Some(czone) = zones.get(query) {
                 if !czone.is_expired() {
                     trace!(
@@ -137,6 +157,8 @@ impl Database {
         // complicated. (And what happens if the I/O becomes outdated by the
         // time you acquire the lock?)
         let mut zones = self.zones.write().unwrap();
+        #[cfg(jiff_verif)]
+        crate::__verif::emit("slow_begin", query, 0, 0);
         let ttl = zones.ttl;
         match zones.get_zone_index(query) {
             Ok(i) => {
@@ -144,6 +166,8 @@ impl Database {
                 if czone.revalidate(path, ttl) {
                     // Metadata on the file didn't change, so we assume the
                     // file hasn't either.
+                    #[cfg(jiff_verif)]
+                    crate::__verif::emit("revalidated", query, i as i64, 0);
                     return Some(czone.tz.clone());
                 }
                 // Revalidation failed. Re-read the TZif data.
@@ -152,18 +176,26 @@ impl Database {
                     path, query, ttl, scratch1, scratch2,
                 ) {
                     Ok(Some(czone)) => czone,
-                    Ok(None) => return None,
+                    Ok(None) => {
+                        #[cfg(jiff_verif)]
+                        crate::__verif::emit("gone", query, i as i64, 1);
+                        return None;
+                    }
                     Err(_err) => {
                         warn!(
                             "failed to re-cache time zone {query} \
                              from {path}: {_err}",
                             path = path.display(),
                         );
+                        #[cfg(jiff_verif)]
+                        crate::__verif::emit("gone", query, i as i64, 1);
                         return None;
                     }
                 };
                 let tz = czone.tz.clone();
                 zones.zones[i] = czone;
+                #[cfg(jiff_verif)]
+                crate::__verif::emit("reloaded", query, i as i64, 0);
                 Some(tz)
             }
             Err(i) => {
@@ -172,18 +204,39 @@ impl Database {
                     path, query, ttl, scratch1, scratch2,
                 ) {
                     Ok(Some(czone)) => czone,
-                    Ok(None) => return None,
+                    Ok(None) => {
+                        #[cfg(jiff_verif)]
+                        crate::__verif::emit("gone", query, i as i64, 0);
+                        return None;
+                    }
                     Err(_err) => {
                         warn!(
                             "failed to cache time zone {query} \
                              from {path}: {_err}",
                             path = path.display(),
                         );
+                        #[cfg(jiff_verif)]
+                        crate::__verif::emit("gone", query, i as i64, 0);
                         return None;
                     }
                 };
                 let tz = czone.tz.clone();
                 zones.zones.insert(i, czone);
+                #[cfg(jiff_verif)]
+                {
+                    // the cache must stay sorted (by name, ignoring ASCII
+                    // case) and free of duplicates: a violation is b = 1
+                    let sorted = zones.zones.windows(2).all(|w| {
+                        utf8::cmp_ignore_ascii_case(w[0].name(), w[1].name())
+                            == core::cmp::Ordering::Less
+                    });
+                    crate::__verif::emit(
+                        "inserted",
+                        query,
+                        i as i64,
+                        if sorted { 0 } else { 1 },
+                    );
+                }
                 Some(tz)
             }
         }
@@ -439,6 +492,14 @@ impl Names {
     }
 
     fn reset(&self) {
+        #[cfg(jiff_verif)]
+        {
+            let mut inner = self.inner.write().unwrap();
+            inner.reset();
+            crate::__verif::emit("names_reset", "", 0, 0);
+            return;
+        }
+        #[allow(unreachable_code)]
         self.inner.write().unwrap().reset();
     }
 }
